@@ -121,8 +121,10 @@ SPEC = dict(
         "value theorems freq_cell, freq_rows_sum_to_one, rescale_spec, acceptance-in-exact-arithmetic are over exact "
         "rationals Qc; for weights and rescaled weights the distance between the binary32 result and the exact value IS "
         "proved (C09_weight_f32_error, C09_rescale_f32_error: standard model with gradual underflow, hypotheses: finite "
-        "operands, background entries > 0, no overflow of x = f/old, q = old/new, w = x*q); for frequencies and scores it "
-        "is not proved but checked on the observations with the stated tolerances",
+        "operands, background entries > 0, no overflow of x = f/old, q = old/new, w = x*q), and so is the distance of a "
+        "frequency row's real sum from one (C09_freq_rows_sum_to_one_f32: <= 1/(1-u)^K - 1 + K*eta <= 2^-19, for "
+        "nonnegative finite count+pseudocount cells with a finite positive total); for single frequency cells and for "
+        "scores (libm) it is not proved but checked on the observations with the stated tolerances",
         "C09_*_model_passes_check additionally assume background entries <= 1 (guaranteed by Background::new / from_counts)",
         "freq_cell / freq_rows_sum_to_one exclude rows whose total count+pseudocount is 0 (0/0 = NaN in the code)",
         "window_between_min_max is proved for ordered commutative monoids (Qc and Qc + -inf) and, for binary32 "
